@@ -1725,7 +1725,7 @@ fn unary_case(args: &[&str]) -> Res {
     let form_ok = match op {
         "idivrem" => matches!(form, "rr" | "rv" | "vr" | "vv"),
         "ishl" | "ishr" => matches!(form, "v" | "r" | "a"),
-        "ipow" | "sqrtrem" => form == "r",
+        "ipow" | "sqrtrem" | "sqrt" => form == "r",
         _ => form == "v",
     };
     if !form_ok || !(if signed { ok_hex(args[2]) } else { hex_to_words(args[2]).is_some() }) {
@@ -1832,7 +1832,13 @@ fn unary_case(args: &[&str]) -> Res {
                     return bad();
                 }
             };
-            if op == "sqrtrem" {
+            if op == "sqrt" {
+                // `UBig::sqrt(&self)` (root_only): the operand stays alive until the events were drained
+                use dashu_base::SquareRoot;
+                let r = guarded(|| x.sqrt()).map(Out::U);
+                kept = Some(x);
+                r
+            } else if op == "sqrtrem" {
                 // `UBig::sqrt_rem(&self)`: the operand stays alive until the events were drained
                 let r = guarded(|| x.sqrt_rem()).map(|(s, r)| Out::UU(s, r));
                 kept = Some(x);
@@ -1948,6 +1954,99 @@ fn divrem_case(args: &[&str]) -> Res {
     Ok(format!("{}|{} end:{}:live={}:dfree={}", head, ev, drops, live, dfree))
 }
 
+/// `mem.arith gcd|gcdext <form> <a> <b>` (UBig operands), `mem.arith igcd <form> <a> <b>` (signed hex operands): one
+/// `Gcd::gcd` / `ExtendedGcd::gcd_ext` call in one ownership form; the result(s) with their layout joined by `&`, the
+/// allocator events of the call, then the drops
+fn gcd_case(args: &[&str]) -> Res {
+    use dashu_base::ExtendedGcd;
+    let bad = || Err("bad-op mem.arith".to_string());
+    let (op, form) = (args[0], args[1]);
+    let signed = op == "igcd";
+    let ok_hex = |s: &str| if signed { hex_to_words(s.strip_prefix('-').unwrap_or(s)).is_some() } else { hex_to_words(s).is_some() };
+    if !matches!(form, "rr" | "rv" | "vr" | "vv") || !ok_hex(args[2]) || !ok_hex(args[3]) {
+        return bad();
+    }
+    hist_begin(true);
+    let built = guarded(|| (p_ibig(args[2]).unwrap(), p_ibig(args[3]).unwrap()));
+    clear_log();
+    let (a, b) = match built {
+        Ok(x) => x,
+        Err(_) => {
+            hist_end();
+            return bad();
+        }
+    };
+    macro_rules! forms {
+        ($a:ident, $b:ident, $m:ident) => {
+            match form {
+                "rr" => {
+                    let (x, y) = ($a.as_ref().unwrap(), $b.as_ref().unwrap());
+                    guarded(|| x.$m(y))
+                }
+                "rv" => {
+                    let x = $a.as_ref().unwrap();
+                    let y = $b.take().unwrap();
+                    guarded(move || x.$m(y))
+                }
+                "vr" => {
+                    let x = $a.take().unwrap();
+                    let y = $b.as_ref().unwrap();
+                    guarded(move || x.$m(y))
+                }
+                _ => {
+                    let x = $a.take().unwrap();
+                    let y = $b.take().unwrap();
+                    guarded(move || x.$m(y))
+                }
+            }
+        };
+    }
+    enum Out {
+        G(UBig),
+        X(UBig, IBig, IBig),
+    }
+    let mut ia: Option<IBig> = None;
+    let mut ib: Option<IBig> = None;
+    let mut ua: Option<UBig> = None;
+    let mut ub: Option<UBig> = None;
+    let res: Result<Out, (String, String)> = if signed {
+        ia = Some(a);
+        ib = Some(b);
+        forms!(ia, ib, gcd).map(Out::G)
+    } else {
+        // the conversion moves the representation (no allocator event)
+        ua = Some(a.try_into().unwrap());
+        ub = Some(b.try_into().unwrap());
+        clear_log();
+        if op == "gcd" {
+            forms!(ua, ub, gcd).map(Out::G)
+        } else {
+            forms!(ua, ub, gcd_ext).map(|(g, s, t)| Out::X(g, s, t))
+        }
+    };
+    let ev = drain_events();
+    let head = match &res {
+        Ok(Out::G(g)) => head_ubig(g),
+        Ok(Out::X(g, s, t)) => format!("{}&{}&{}", head_ubig(g), head_ibig(s), head_ibig(t)),
+        Err((msg, loc)) => format!("!{}", classify_panic(msg, loc)),
+    };
+    let _ = guarded(move || {
+        drop(res);
+        drop(ia);
+        drop(ib);
+        drop(ua);
+        drop(ub);
+    });
+    let drops = drain_sorted_drops();
+    let (live, dfree, overflow) = counters();
+    hist_end();
+    let mut s = format!("{}|{} end:{}:live={}:dfree={}", head, ev, drops, live, dfree);
+    if overflow {
+        s.push_str(":!log-overflow");
+    }
+    Ok(s)
+}
+
 /// `mem.arith pow r <a> d:<exp>`: `UBig::pow(&self, exp)`; the operand stays alive
 fn pow_case(args: &[&str]) -> Res {
     let bad = || Err("bad-op mem.arith".to_string());
@@ -2009,11 +2108,14 @@ pub fn arith_case(args: &[&str]) -> Res {
     if op == "divrem" {
         return divrem_case(args);
     }
-    if matches!(op, "idivrem" | "ishl" | "ishr" | "ipow" | "setbit" | "clearbit" | "clearhigh" | "splitbits" | "nextpow2" | "sqrtrem") {
+    if matches!(op, "idivrem" | "ishl" | "ishr" | "ipow" | "setbit" | "clearbit" | "clearhigh" | "splitbits" | "nextpow2" | "sqrtrem" | "sqrt") {
         return unary_case(args);
     }
     if op == "pow" {
         return pow_case(args);
+    }
+    if matches!(op, "gcd" | "igcd" | "gcdext") {
+        return gcd_case(args);
     }
     if op == "sqr" {
         // `UBig::sqr(&self)`: the operand stays alive
